@@ -24,24 +24,24 @@ P = {
  'C05': ("Lean theorems: square_attacked / in_check / valid / move_legal — the reverse table lookup from the king square equals the rules' attack relation of the mailbox Spec for every well-formed board, colour and piece kind (via C04 and kernel-checked geometry/symmetry tables); no_moves_iff relative to C01; tied to the code by differential testing of in-check/valid/terminal on generated positions against model and Spec.",
          TB + "no_moves_iff uses the C01 move-set equality as hypothesis.",
          "Lean 4 proof via abstraction to a mailbox Spec + three-way differential testing", "§4 C05"),
- 'C06': ("Lean theorems: hash_incremental / pawnHash_incremental (xor-linearity of the occupancy hash, zero rows), hash_congr (hash is a function of placement, side, rights, e.p. file), keys_good on the regenerated key material and single-component sensitivity; tied to the code by incremental-vs-recomputed checks on all pseudo-legal moves, clock/side/right/e.p. variants and a pool-wide key↔hash bijection check.",
+ 'C06': ("Lean theorems: hash_incremental / pawnHash_incremental (xor-linearity of the occupancy hash, zero rows), hash_congr (hash is a function of placement, side, rights, e.p. file), keys_good on the regenerated key material and single-component sensitivity; tied to the code by incremental-vs-recomputed checks on all pseudo-legal moves, clock/side/right/e.p. variants, a pool-wide key↔hash bijection check, and read-back of the real transposition table under recomputed hashes after searches (incl. after rejected position commands).",
          TB + "collisions between multi-component differences are outside the property.",
          "Lean 4 proof (GF(2) linearity) over regenerated keys + differential testing", "§4 C06"),
  'C07': ("Lean theorems on the faithful search model (Props/C07, C07Final): go emits exactly one bestmove, last; bestmove_legal / go_answers_legal_move (a legal move of the position, among searchmoves when given, whenever one exists; depth 1 always completes under the engine's poll period); the move comes from the last completed iteration; no-legal-move gives the null move; BoardLaws discharged from C03/C02. Tied to the code by in-process sessions (every go-limit kind, searchmoves, stop at enumerated poll points, virtual clock) compared with the model on what the property determines, judged by the rules Spec, and by the real engine binary over pipes.",
          TB + 'thread scheduling and wall clock are replaced by the poll-period / pending-message / virtual-clock parameters (hooks), over which the theorems quantify.',
          'Lean 4 theorems about an executable state-machine model + differential testing of sessions',
          '§4 C07'),
- 'C08': ('Lean theorems: fail-soft alpha-beta with ANY move order and transposition table over fail-hard quiescence equals minimax (ab_ok, ab_tt_ok under TTValid, order_irrelevant, root_exact, best_move_optimal); C08Sim: the CONCRETE search model (make/unmake on one board, fuel, node counters, polls, hash-keyed table, repetition test, killer/PV/TT ordering) computes specValue for d<=3 and plays an optimal move (negamax_eq_spec, go_eq_spec; for d<=2 with no chess hypothesis beyond hash non-collision, for d=3 two transposition facts remain stated); mate_found/mate_real, C16Pv.mate_pv (a reported mate N has a legal PV of 2N-1 plies ending in checkmate). The verified evaluator is the executable oracle on every run: engine scores at depth 1..3 must equal it, the best move must attain it; validated corpora of mates in 2-3 and being-mated positions; the REAL transposition table is read back (hook) and every sampled entry checked against the invariant TTValid.',
+ 'C08': ('Lean theorems: fail-soft alpha-beta with ANY move order and transposition table over fail-hard quiescence equals minimax (ab_ok, ab_tt_ok under TTValid, order_irrelevant, root_exact, best_move_optimal); C08Sim: the CONCRETE search model (make/unmake on one board, fuel, node counters, polls, hash-keyed table, repetition test, killer/PV/TT ordering) computes specValue for d<=3 and plays an optimal move (negamax_eq_spec, go_eq_spec; for every d<=3 with no hypothesis beyond hash non-collision and non-zero keys: the transposition facts transp13/transp22 are proved in C08Transp, go_eq_spec_le3); mate_found/mate_real, C16Pv.mate_pv (a reported mate N has a legal PV of 2N-1 plies ending in checkmate). The verified evaluator is the executable oracle on every run: engine scores at depth 1..3 must equal it, the best move must attain it; validated corpora of mates in 2-3 and being-mated positions; the REAL transposition table is read back (hook) and every sampled entry checked against the invariant TTValid; deeper-then-shallower searches on one engine instance.',
          TB + '64-bit hash non-collision (HashInj/HashNonzero) on the <=3-ply neighbourhood of the root is a hypothesis; for d=3 Transp13/Transp22 are stated, not proved.',
          'Lean 4 proof (abstract game + simulation by the concrete search model) + differential testing against the verified evaluator + invariant read-back',
          '§4 C08'),
  'C09': ("Lean bracket theorem: for every fuel, window, poll period, pending message, clock and go parameters negamax/quiescence/deepen/go leave the visible board unchanged (every exit path incl. abort at any node), by induction, from C03's unmake_make; sessions by induction over consecutive searches; tied to the code by enumerating EVERY poll point of small searches (stop and quit, movetime expiry under the virtual clock) and reading the board back through the hook.",
          TB + "hypotheses H1/H2 (unmake∘make = id on wf boards; wf preserved by legal moves) are discharged by C03 / checked by the correspondence.",
          "Lean 4 invariant proof by induction over the search recursion + exhaustive interruption-point enumeration", "§4 C09"),
- 'C10': ("Lean theorems countRepetitions_value/spec/threefold_iff characterise the repetition counter for every history, start index and half-move window and connect it to 'occurred three times' under explicit hypotheses; max_half_moves = 100 on the regenerated constant, fifty_only_after_100; engine-level correspondence on histories with repetitions and on half-move clocks 0..150.",
+ 'C10': ("Lean theorems countRepetitions_value/spec/threefold_iff characterise the repetition counter for every history, start index and half-move window and connect it to 'occurred three times' under explicit hypotheses; max_half_moves = 100 on the regenerated constant, fifty_only_after_100; engine-level correspondence on histories with repetitions, on the same game re-sent as a FEN with clocks, on half-move clocks 0..150, and on a validated corpus of perpetual-check positions where the rule decides the depth-4 value below the root (expected value from the executable path-dependent specification Model/RepSpec run through the verified alpha-beta).",
          TB + "64-bit hash collisions excluded by hypothesis HashInj inside the theorem.",
          "Lean 4 theorem about the executable model + differential testing against ZobristHistory through a hook", "§4 C10"),
- 'C11': ("Lean theorems: black_tables_mirror (1152 entries, regenerated), eval_flip for EVERY board, evaluate_flip incl. terminal positions (check detection proved flip-equivariant via C04), terminal_sign, nearer_mate_better, score_mate_*/score_mated_* arithmetic for both colours; tied to the code by static evaluation of positions and their flips and depth<=3 searches of both.",
+ 'C11': ("Lean theorems: black_tables_mirror (1152 entries, regenerated), eval_flip for EVERY board, evaluate_flip incl. terminal positions (check detection proved flip-equivariant via C04), terminal_sign, nearer_mate_better, score_mate_*/score_mated_* arithmetic for both colours; C11Search: wf_flipBoard, equivariance of legal moves/successors/horizon test/terminal status under the flip (via the mailbox Spec), specScore_flip — the reported score of the exact minimax value is flip-invariant at EVERY depth — and search_flip for the engine model at d<=3 (via go_eq_spec); tied to the code by static evaluation of positions and their flips and depth<=3 searches of both.",
          TB + "search_flip (fixed-depth scores of flipped twins) is decided by differential testing, stated as TARGET in Lean.",
          "Lean 4 proof (sum re-indexing by the mirror involution) over regenerated tables + differential testing", "§4 C11"),
  'C12': ("Lean theorems: print_parse_board / print_parse_legal (reading back what was written gives the same position, all rights/e.p./clocks < 2^32), decode_correct against an independent FEN printer Spec, parse_print_same, four_field_defaults, eight rejection theorems, parse_no_panic_branch (totality); tied to the code by canonical, mutated and random strings with an independent Python FEN reference.",
@@ -58,11 +58,11 @@ P = {
  'C15': ("Lean theorems parse_render / parse_line (every well-formed command incl. every subset and order of go parameters, arbitrary spacing), ucimove_roundtrip, rejection lemmas (unknown first word, duplicate go parameter, bad int/move/FEN, missing parameter); the model is total so no input panics; tied to the Rust parser by grammar-generated lines with independently computed expected answers, mutations and random strings.",
          TB + "Rust std trim/split/integer parsing and the regex crate are modelled, not verified.",
          "Lean 4 theorems about a hand-written executable model + differential testing with independent expected answers", "§4 C15"),
- 'C16': ('Lean theorems: info depth/nodes/time monotone, bestmove_is_pv0_ponder_is_pv1, null_bestmove_no_ponder; C16Pv.pv_legal_line(_rules): every reported PV is a legal line from the searched position (by the rules Spec), mate_pv; C16Console.render_accepts: every well-formed message printed by the console writer model is accepted by an independent UCI engine-to-GUI grammar, single line. Tied to the code: console lines of the REAL ConsoleUciTx = model and accepted by the grammar; every stdout line of the real binary matched against the grammar; PVs validated as legal lines by the rules Spec; multi-cycle sessions with state carried over.',
+ 'C16': ('Lean theorems: info depth/nodes/time monotone, bestmove_is_pv0_ponder_is_pv1, null_bestmove_no_ponder; C16Pv.pv_legal_line(_rules): every reported PV is a legal line from the searched position (by the rules Spec), mate_pv; C16Console.render_accepts: every well-formed message printed by the console writer model is accepted by an independent UCI engine-to-GUI grammar, single line; C16Wf.engine_out_wf: every message a go emits is well-formed (no hypothesis on the state), hence every printed line is accepted; C16App: process model (banner, read loop, parser, Engine::accept, idle loop) — app_lines_accepted for EVERY list of stdin lines, app_one_bestmove_per_go, app_parse_error_silent. Tied to the code: the real engine_app process and the process model get the same stdin scripts and must produce the same projected stdout stream and exit status; console lines of the REAL ConsoleUciTx = model and accepted by the grammar; every stdout line of the real binary matched against the grammar; PVs validated as legal lines by the rules Spec; multi-cycle sessions with state carried over.',
          TB + 'SystemTime monotonicity; PV legality through table hits assumes no hash collision on the reachable set (HashInjCore); that every message the engine hands to the printer is well-formed (non-empty pv) follows from the search model, not from the printer.',
          "Lean 4 trace theorems + grammar recogniser theorem + differential testing incl. the real binary's stdout",
          '§4 C16'),
- 'C17': ('Lean theorems chunk_independent (for every input, chunk size >= 1 and read fragmentation the buffered reader yields exactly what the plain byte list yields), parse_render (every well-formed Lichess-layout collection is read back completely), c17; C17Replay.pgn_replay: the SAN texts of any legal line written in that layout are read back and replay on the board model to exactly the positions of the line. Tied to pgn/src/reader.rs by differential testing over chunk sizes/schedules with independently computed expected answers, plus SAN replay of the yielded moves on the real board (incl. games of > 255 moves).',
+ 'C17': ('Lean theorems chunk_independent (for every input, chunk size >= 1 and read fragmentation the buffered reader yields exactly what the plain byte list yields), parse_render (every well-formed Lichess-layout collection is read back completely), c17; C17Replay.pgn_replay: the SAN texts of any legal line written in that layout are read back and replay on the board model to exactly the positions of the line. Tied to pgn/src/reader.rs by differential testing over chunk sizes/schedules with independently computed expected answers, plus SAN replay of the yielded moves on the real board (incl. games of > 255 moves), non-ASCII content, and the chunk-independence oracle on identical bytes.',
          TB + 'std::io::Read contract (0 bytes only at EOF); lines longer than 4095 plies outside wf.',
          'Lean 4 simulation proof (invariant consumed++window++rest=input) + differential testing',
          '§4 C17'),
